@@ -110,9 +110,11 @@ def crosscheck_function(world, contract, per_path=2, seed=0, max_paths=60):
         # symbols that occur in the quantified axioms of this path (class invariants such as "binary mask",
         # "increasing grid") must keep the values the model gives them: only free data is diversified
         protected = set()
+        axioms = []
         if pr.obligations:
             have = set(p_.get_id() for p_ in pr.pc)
-            stack = [a for a in pr.obligations[0].pc if a.get_id() not in have]
+            axioms = [a for a in pr.obligations[0].pc if a.get_id() not in have]
+            stack = list(axioms)
             seen = set()
             while stack:
                 e = stack.pop()
@@ -125,7 +127,11 @@ def crosscheck_function(world, contract, per_path=2, seed=0, max_paths=60):
                     if e.decl().kind() == z3.Z3_OP_UNINTERPRETED:
                         protected.add(e.decl().name())
                     stack.extend(e.children())
-        for m in sample_models(pc, per_path, seed, away=cuts):
+        # sample with the axioms when the solver can handle them (quantifiers), else from the path condition alone
+        models = sample_models(pc + axioms, per_path, seed, away=cuts) if axioms else []
+        if not models:
+            models = sample_models(pc, per_path, seed, away=cuts)
+        for m in models:
             if near_boundary(m, cuts):
                 # an input on a floor/round discontinuity: float and real arithmetic may differ there
                 # (assumption "machine arithmetic treated as mathematical"); not a semantic disagreement
@@ -135,7 +141,7 @@ def crosscheck_function(world, contract, per_path=2, seed=0, max_paths=60):
             import random
             replay.DIVERSIFY, replay._DIVERSE, replay.PROTECTED = random.Random(seed * 7919 + stats['samples']), {}, protected
             try:
-                r = replay.replay_with_model(world, contract, pr.replay_state, pr.pc, m)
+                r = replay.replay_with_model(world, contract, pr.replay_state, pr.pc, m, axioms=axioms)
             finally:
                 replay.DIVERSIFY, replay._DIVERSE, replay.PROTECTED = None, {}, set()
             stats['samples'] += 1
